@@ -54,6 +54,8 @@ class C04:
         env = E.make_env(cfg)
         m = rc.randint(2, 4)
         rows = E.gen_rows(env, cfg, m, st.torch_seed("instances"))
+        if rc.random() < 0.4:  # hand-supplied documented-format data: per-instance parameters differ between rows
+            rows, _src = E.hand_format(name, rows, rc)
         strategies = [rc.choice(D.STRATEGIES) for _ in range(m)]
         comps = []
         for _ in range(rc.randint(2, 4)):
